@@ -49,6 +49,23 @@ CHECKS.update({
    note=CFG_NOTE),
 })
 
+HIST_NOTE = ("Trusted base: Go toolchain; the reference model (last successful input snapshot per task, updated from a harness-owned side-effect log); the controlled-iteration overlay of collections/dag; tmpfs. "
+             "Every run transition is a real spok invocation (in-process parser.New/file.New/SpokFile.Run, a fresh SpokFile each time) on the materialised disk state.")
+CHECKS.update({
+ "C01": dict(engine="histmc", cat="model_checking", ref="§2.1, §3 C01",
+   technique="explicit-state BFS to closure over (disk, reference-model) states, each transition executed by the real code, branching over every topological-sort iteration order; skip-soundness invariant on every run transition",
+   text="For each program of the catalogue (thorough: every <=2-task program over the dependency alphabet plus the 3-task shapes) the full state graph under the op alphabet {edit/create/revert/delete files, run any request list with/without force with any failing set, remove cache} is explored to closure, i.e. all finite histories; every reported skip must match the model's last success.",
+   note=HIST_NOTE),
+ "C02": dict(engine="histmc", cat="model_checking", ref="§2.1, §3 C02",
+   technique="same explicit-state closure as C01 with the converse oracle (unchanged since last success => skipped, file-less tasks always run)",
+   text="Same exploration as C01; on every unforced error-free run transition every reached task whose inputs equal those of its last success must be skipped with no command executed, and file-less tasks must run. The corner where the task failed on these same inputs after that success is left unconstrained.",
+   note=HIST_NOTE),
+ "C14": dict(engine="histmc", cat="model_checking", ref="§2.1, §3 C14",
+   technique="explicit-state closure computed twice (force-free alphabet, full alphabet): forced transitions must execute everything, and skip-soundness is checked in states only forced runs can reach",
+   text="On every forced transition of the closure no task is skipped and every task of the run executes; skip-soundness violations on transitions from states outside the force-free closure (or on forced transitions) are reported here.",
+   note=HIST_NOTE),
+})
+
 NOT_YET = {}
 
 ALL = ["C%02d" % i for i in range(1, 21)]
@@ -86,6 +103,8 @@ def main():
         "engines": [
             {"name": "langmc", "path": "harness/cmd/mc/langmc.go, harness/internal/lang", "serves_properties": ["C06", "C07", "C08", "C11", "C15", "C16"],
              "kind_free_text": "bounded-exhaustive enumeration of lexer/parser/formatter inputs executed on the real code in crash-isolated workers"},
+            {"name": "histmc", "path": "harness/cmd/mc/histmc.go", "serves_properties": ["C01", "C02", "C14"],
+             "kind_free_text": "explicit-state search over project histories: states (disk, reference model), transitions executed by the real code"},
             {"name": "cfgmc", "path": "harness/cmd/mc/c03.go c05.go c17.go", "serves_properties": ["C03", "C05", "C17"],
              "kind_free_text": "exhaustive enumeration of small configuration universes (graphs x requests x iteration orders, trees x patterns, chains x start x stop) executed on the real code against reference functions"},
         ],
